@@ -14,7 +14,7 @@ import (
 func init() {
 	register("C19", &propDef{
 		Title: "No entry point panics, crashes or hangs on any input",
-		Rules: []func(*Checker){ruleDecodedPointersChecked("C19.jsonnil"), ruleC19Recursion, ruleC19Block, ruleC19Index, ruleC19Panics, ruleC19LibPanics, ruleC19NilField, ruleTraceCalls("C19.nilcall"), ruleAddrErrors("C19.errors"), ruleLockBalanced("C19.balanced"), ruleTracerNonNil("C19.tracer"), ruleRootHops("C19.hops"), ruleC05Resolve("C19.resolve"), ruleC19HostLabel, ruleFilesClosed("C19.closed"), ruleC19OkUse, ruleWalkErrParam("C19.walkerr"), ruleMapFieldsMade("C19.mapinit"), ruleExhaustiveTypeSwitch("C19.exhaustive"), ruleNilReceiverAfterError("C19.nilrecv"), ruleC19SameFile, ruleNilErrorMeansResult("C19.okresult")},
+		Rules: []func(*Checker){ruleDecodedPointersChecked("C19.jsonnil"), ruleC19Recursion, ruleC19Block, ruleC19Index, ruleC19Panics, ruleC19LibPanics, ruleC19NilField, ruleTraceCalls("C19.nilcall"), ruleAddrErrors("C19.errors"), ruleLockBalanced("C19.balanced"), ruleTracerNonNil("C19.tracer"), ruleRootHops("C19.hops"), ruleC05Resolve("C19.resolve"), ruleC19HostLabel, ruleFilesClosed("C19.closed"), ruleC19OkUse, ruleWalkErrParam("C19.walkerr"), ruleMapFieldsMade("C19.mapinit"), ruleExhaustiveTypeSwitch("C19.exhaustive"), ruleNilReceiverAfterError("C19.nilrecv"), ruleC19SameFile, ruleNilErrorMeansResult("C19.okresult"), ruleNoAllocationByHeaderSize("C19.allocbysize")},
 		NotDecided: []string{
 			"total running time; panics inside libraries",
 			"explicit 'cannot happen' panics whose unreachability rests on library behaviour are inventoried (C19.panics) and their guards checked where structural, but not proved unreachable",
